@@ -1302,7 +1302,7 @@ void rtosc::path_search(const rtosc::Ports& root,
             types[pos]    = 'b';
             if(p.metadata && *p.metadata) {
                 args[pos].b.data = (unsigned char*) p.metadata;
-                auto tmp = rtosc::Port::MetaContainer(p.metadata);
+                auto tmp = p.meta();
                 args[pos++].b.len  = tmp.length();
             } else {
                 args[pos].b.data = (unsigned char*) NULL;
